@@ -112,8 +112,11 @@ class Interp(object):
         self._const_objs = {}
         self._tyname = {}
         self.mem_events = []     # raw memory intrinsic events for R-BOUNDS
+        self.obj_info = {}       # obj id -> (size, name, kind) (kept after the object is freed)
+        self.obj_align = {}
         self.assume = []         # undo log of path assumptions [(term id, old ub)]
         tm.ASSUME_UB.clear()
+        tm.ASSUME_LB.clear()
         self.trace_calls = None
 
     # ------------------------------------------------------------------ types
@@ -202,6 +205,7 @@ class Interp(object):
         o = Agg(size, name)
         o.id = self.next_obj
         o.kind = kind
+        self.obj_info[o.id] = (size, name, kind)
         self.next_obj += 1
         self.heap[o.id] = o
         return o
@@ -581,12 +585,20 @@ class Interp(object):
             return out
         raise Abort('deref of non-pointer value %s' % tm.show(pv, 0, 3))
 
+    def _log_access(self, fr, p, alts, size, kind):
+        if not any(e[0] == 'd' for e in p[1]):
+            return
+        for (c, o, off) in alts:
+            if o.kind == 'arg' or o.kind == 'const':
+                self.mem_events.append(('access', fr.body['d'], None, o.id, off, size, 1, dict(tm.ASSUME_LB), kind))
+
     def read_place(self, fr, p):
         alts, meta = self.eval_place(fr, p)
         tyid = p[2]
         size = self.F.types[tyid]['sz']
         if size is None:
             raise Abort('read of unsized place')
+        self._log_access(fr, p, alts, size, 'read')
         if len(alts) == 1:
             return self.read(alts[0][1], alts[0][2], size, tyid)
         # gated read
@@ -620,6 +632,7 @@ class Interp(object):
         size = self.F.types[tyid]['sz']
         if size is None:
             raise Abort('write of unsized place')
+        self._log_access(fr, p, alts, size, 'write')
         if len(alts) == 1:
             self.write(alts[0][1], alts[0][2], size, val)
             return
@@ -1129,19 +1142,33 @@ class Interp(object):
             if ub is not None and ub >= 0:
                 old = tm.ASSUME_UB.get(t.id)
                 if old is None or ub < old:
-                    self.assume.append((t.id, old))
+                    self.assume.append((t.id, old, 'ub'))
                     tm.ASSUME_UB[t.id] = ub
+            lb = None
+            if x.op.startswith('lt:u') and tm.is_const(x.args[0]):
+                t, lb = x.args[1], tm.cbits(x.args[0]) + 1
+            elif x.op.startswith('le:u') and tm.is_const(x.args[0]):
+                t, lb = x.args[1], tm.cbits(x.args[0])
+            elif x.op.startswith('eq:u') and (tm.is_const(x.args[0]) or tm.is_const(x.args[1])):
+                k, t = (x.args[0], x.args[1]) if tm.is_const(x.args[0]) else (x.args[1], x.args[0])
+                lb = tm.cbits(k)
+            if lb is not None:
+                old = tm.ASSUME_LB.get(t.id)
+                if old is None or lb > old:
+                    self.assume.append((t.id, old, 'lb'))
+                    tm.ASSUME_LB[t.id] = lb
 
     def assume_mark(self):
         return len(self.assume)
 
     def assume_reset(self, mark):
         while len(self.assume) > mark:
-            tid, old = self.assume.pop()
+            tid, old, which = self.assume.pop()
+            d = tm.ASSUME_UB if which == 'ub' else tm.ASSUME_LB
             if old is None:
-                tm.ASSUME_UB.pop(tid, None)
+                d.pop(tid, None)
             else:
-                tm.ASSUME_UB[tid] = old
+                d[tid] = old
 
     def record_panic(self, kind, cond, fr, line, detail):
         full = tm.b_and(cond, *self.pathcond)
@@ -1189,7 +1216,8 @@ class Interp(object):
             raise Abort('copy through gated pointer')
         so, do = self.heap[sa[0][1]], self.heap[da[0][1]]
         v = self.read(so, sa[0][2], n, -1 if n else None) if False else self._read_raw(so, sa[0][2], n)
-        self.mem_events.append(('copy', fr.body['d'], so.id, sa[0][2], do.id, da[0][2], n))
+        self.mem_events.append(('access', fr.body['d'], None, so.id, sa[0][2], n, 1, dict(tm.ASSUME_LB), 'read'))
+        self.mem_events.append(('access', fr.body['d'], None, do.id, da[0][2], n, 1, dict(tm.ASSUME_LB), 'write'))
         self.write(do, da[0][2], n, v)
 
     def _read_raw(self, obj, off, size):
@@ -1491,6 +1519,7 @@ class Interp(object):
                 raise Abort('arity mismatch calling %s' % key)
         for i, lt in enumerate(locs):
             o = self.new_obj(self.F.types[lt]['sz'], '%s::_%d' % (body['d'], i), 'local')
+            self.obj_align[o.id] = self.F.types[lt]['al']
             fr.locals.append(o.id)
         for i, a in enumerate(args):
             sz = self.F.types[locs[i + 1]]['sz']
